@@ -35,6 +35,8 @@ def merge_mod():
     i = b.index("pub fn all()"); j = b.index("vec![", i); k = b.index("]", j)
     items = [x.strip() for x in b[j+5:k].split(",") if x.strip()]
     for it in [x.strip() for x in va.split(",") if x.strip()]:
+        if it == "Box::new(write::WriteStream)":
+            continue
         if it not in items:
             items.append(it)
     b = b[:j] + "vec![\n        " + ",\n        ".join(items) + ",\n    ]" + b[k+1:]
